@@ -160,7 +160,7 @@ fn script(p: &Program, ops: &[OpK], root: usize, atoms: &[Atom], tracked: &[bool
         } else {
             vi
         };
-        acts.push(Act::Build { op: op_index(&n.op), args, dst: dst as u8 });
+        acts.push(Act::Build { op: op_index(&n.op), args: args.into(), dst: dst as u8 });
         slot_of[vi] = Some(dst);
         for t in temps {
             acts.push(Act::Drop { slot: t as u8 });
